@@ -53,6 +53,9 @@ def schedule(draw, tier="quick"):
                 op["o"] = draw(st.integers(0, 5))
         elif k == "process":
             op["n"] = draw(st.integers(1, 3))
+        elif k == "restart":
+            # the new instance may receive the image of its bets BEFORE the first market data of that market
+            op["orders_first"] = draw(st.booleans())
         ops.append(op)
     return {"ops": ops, "async": draw(st.integers(0, 3)) == 0, "strategies": draw(st.sampled_from([["S"], ["S", "T"]]))}
 
@@ -70,12 +73,20 @@ class Driver:
         self.adopted_checked = False
         self.start()
 
-    def start(self):
+    def start(self, feed=True):
         self.lab = livedouble.LiveLab([self.spec], strategies=self.c["strategies"], async_place=self.c["async"], exchange=self.exchange)
-        self.lab.feed(0)
-        self.lab.feed(0, {"k": "book", "dt": 1000, "rc": [{"r": i, "atb": [[40, 50.0]], "atl": [[44, 50.0]]} for i in range(3)]})
+        if feed:
+            self.feed_market()
         self.orders = []
         self.snaps = []
+
+    def feed_market(self):
+        self.lab.feed(0)
+        self.lab.feed(0, {"k": "book", "dt": 1000, "rc": [{"r": i, "atb": [[40, 50.0]], "atl": [[44, 50.0]]} for i in range(3)]})
+
+    def hook(self, label):
+        if getattr(self, "after_op", None):
+            self.after_op(self, {"op": label})
 
     def close(self):
         if self.lab:
@@ -181,7 +192,7 @@ class Driver:
             elif k == "quiesce":
                 self.quiesce()
             elif k == "restart":
-                self.restart()
+                self.restart(op.get("orders_first", False))
             elif k == "foreign":
                 self.foreign_bet()
         except FlumineException:
@@ -196,10 +207,29 @@ class Driver:
         b.ref = instr["customerOrderRef"]
         self.classes.add("unknown-strategy-bet")
 
-    def restart(self):
+    def restart(self, orders_first=False):
         """crash: everything local is lost; a new instance subscribes and gets the image of the executable bets"""
         self.lab.close()
-        self.start()
+        if orders_first:
+            # the order stream delivers its image before the market stream delivered anything for the market: the
+            # bets are adopted into a market that has no market book yet, then the market data arrives
+            self.start(feed=False)
+            self.take_snap(full=True, only_executable=True)
+            while self.snaps:
+                self.process_snap()
+            self.hook("restart:image-before-market-data")
+            pre = list(self.local_orders())
+            self.feed_market()
+            m = self.lab.market(0)
+            for o in pre:
+                if m is None or m.blotter._orders.get(o.id) is not o:
+                    raise Violation("adopted-order-lost-when-market-data-arrived", (), "order %s (bet %s) adopted before the first market book is %s afterwards" % (
+                        o.id, o.bet_id, "not in the blotter" if m is None or o.id not in m.blotter._orders else "another object"), self.c)
+            self.hook("restart:market-data-after-image")
+            if pre:
+                self.classes.add("restart-orders-adopted-before-market-data")
+        else:
+            self.start()
         self.take_snap(full=True, only_executable=True)
         while self.snaps:
             self.process_snap()
@@ -318,6 +348,7 @@ class Driver:
 def check(c, after_op=None, convergence=True):
     d = Driver(c)
     d.convergence = convergence
+    d.after_op = after_op
     try:
         for op in c["ops"]:
             d.apply(op)
